@@ -20,9 +20,10 @@ from vlib.e2e.env import ProxyEnv
 from vlib.e2e_runner import Result
 
 LOGFORMAT = ("logformat c34 T=%{X-Tag}>h q=\"%\"{X-V}>h\" m=[%[{X-V}>h] u=%#{X-V}>h s=%/{X-V}>h d=%{X-V}>h "
-             "uq=\"%\"un\" um=[%[un] uu=%#un us=%/un ru=%ru rq=\"%\"ru\" st=%>Hs END r=%'{X-V}>h")
+             "uq=\"%\"un\" um=[%[un] uu=%#un us=%/un ru=%ru rq=\"%\"ru\" st=%>Hs hq=\"%\">h\" END r=%'{X-V}>h")
 FIELDS = [("T", "word"), ("q", "quoted"), ("m", "bracket"), ("u", "word"), ("s", "shell"), ("d", "word"),
-          ("uq", "quoted"), ("um", "bracket"), ("uu", "word"), ("us", "shell"), ("ru", "word"), ("rq", "quoted"), ("st", "word")]
+          ("uq", "quoted"), ("um", "bracket"), ("uu", "word"), ("us", "shell"), ("ru", "word"), ("rq", "quoted"), ("st", "word"),
+          ("hq", "quoted")]      # the whole received request header block (the one multi-line value a client controls) under %" quoting
 
 HELPER = "#!/bin/sh\nwhile read user pass; do\n  echo OK\ndone\n"
 
